@@ -173,6 +173,73 @@ def make_trees(variables, inner_ops, outer_ops):
     return body
 
 
+ROTATED = {'i': "'x'", 'f': '[1]', 's': '3', 'l': '(1,)', 't': '2.5'}      # the same names bound to other types
+
+
+def body_imported(ctx):
+    """The operands live in another file of the submission (where each name first held a value of another type and
+    was rebound), next to a second student file that uses the same names for other types."""
+    from pedal.core.submission import Submission
+    names = list(CORE)
+    op = OPS[ctx.choose(len(OPS), 'op')]
+    a = names[ctx.choose(len(names), 'left')]
+    b = names[ctx.choose(len(names), 'right')]
+    form = ('from prices import', 'import prices, then import units')[ctx.choose(2, 'import-form')]
+    prices = "".join("%s = %s\n%s = %s\n" % (n, ROTATED[n], n, CORE[n]) for n in names)
+    units = "".join("%s = %s\n" % (n, ROTATED[n]) for n in names)
+    if form.startswith('from'):
+        main = "from prices import %s\nr = %s %s %s\nprint(r)\n" % (', '.join(sorted({a, b})), a, op, b)
+    else:
+        main = "import prices\nimport units\nr = prices.%s %s prices.%s\nprint(r)\n" % (a, op, b)
+    expr = main.split("\n")[-3]
+    env = {}
+    exec("\n".join("%s = %s" % kv for kv in CORE.items()), env)
+    try:
+        real = ('ok', eval("%s %s %s" % (a, op, b), env))
+    except TypeError:
+        real = ('TypeError', None)
+    except Exception as ex:
+        real = (type(ex).__name__, None)
+    ctx.observe(main)
+    ctx.set_sample({'main': main, 'cpython': real[0] if real[0] != 'ok' else type(real[1]).__name__})
+    if real[0] not in ('ok', 'TypeError') or isinstance(real[1], complex):
+        ctx.abstain()
+        return
+    cmds.clear_report()
+    cmds.contextualize_report(Submission(files={'answer.py': main, 'prices.py': prices, 'units.py': units},
+                                         main_file='answer.py', main_code=main))
+    ctx.step('tifa_analysis')
+    try:
+        t = tifa_analysis()
+    except Exception as e:
+        ctx.fail({'symptom': 'tifa_analysis raised', 'exception': type(e).__name__}, expression=expr)
+        return
+    if not t.success:
+        ctx.fail({'symptom': 'tifa internal failure', 'error': repr(t.error)[:60]}, expression=expr, program=main)
+        return
+    ctx.mark_nontrivial(main)
+    inc = [i for i in t.issues.get('incompatible_types', [])]
+    if real[0] == 'TypeError':
+        ctx.outcome('TypeError')
+        if not inc:
+            ctx.fail({'symptom': 'TypeError not reported', 'ops': op, 'operands': 'imported from another student file'},
+                     expression=expr, program=main)
+        return
+    if inc:
+        ctx.outcome('spurious-report')
+        ctx.info['spurious_incompatible_types_reports'] += 1
+        return
+    try:
+        ok = is_subtype(get_pedal_type_from_value(real[1]), t.top_level_variables['r'].type)
+    except Exception as ex:
+        ok = 'EXC ' + repr(ex)[:60]
+    ctx.outcome('ok:' + type(real[1]).__name__)
+    if ok is not True:
+        ctx.fail({'symptom': 'result value does not conform to the inferred type', 'ops': op,
+                  'result_type': type(real[1]).__name__, 'operands': 'imported from another student file'},
+                 expression=expr, program=main, inferred=str(t.top_level_variables['r'].type)[:30])
+
+
 ATOMS = ['1', '2.5', 'True', "'s'", 'None']
 
 
@@ -293,6 +360,9 @@ def phases(tier):
                 describe='all depth-2 trees: arithmetic inner operator, any outer operator, 5 core variables'),
           Phase('signed-literals', make_table(SIGNED, SIGNED_OPS), setup=_setup, chunk=100,
                 describe='operator x ordered pair of variables among which negative / explicitly signed int and float literals'),
+          Phase('imported-operands', body_imported, setup=_setup, chunk=50,
+                describe='operator x ordered pair of names imported from another student file (rebound there; a second '
+                         'file binds the same names to other types)'),
           Phase('container-elements', body_elements, setup=_setup, chunk=100,
                 describe='+ and * over containers with different element types, empty containers, zero/negative counts'),
           Phase('reassigned-operands', body_reassigned, setup=_setup, chunk=100,
